@@ -8,9 +8,12 @@
    demands of one Write call (executable checker over observables).  Part 4: pooled buffers and
    the Write program at the granularity Get / marshal / compress / send / Put.  Part 5: the
    handler.  Part 6: what the property demands of the handler, Content-Type grammar. *)
+From Coq Require Import Strings.String.
 From Coq Require Import ZArith List Bool Arith.
 From Verif Require Import Base.Str.
 Import ListNotations.
+Open Scope string_scope.
+Open Scope list_scope.
 Open Scope Z_scope.
 
 (* ================= Part 1: helpers (strings.TrimSpace / Split / strconv.Atoi on ASCII) ================= *)
@@ -212,6 +215,13 @@ Definition write (cfg : wcfg) (ty : str) (k : msgkind) (jit : Z -> Z) (script : 
       end
   end.
 
+(* helpers used in statements *)
+Definition marshals (k : msgkind) : bool := match k with MVt | MGogo | MGeneric => true | _ => false end.
+Definition triple (s : stats) : Z * Z * Z := (s_samples s, s_hist s, s_exem s).
+Definition add3 (a b : Z * Z * Z) : Z * Z * Z := (fst (fst a) + fst (fst b), snd (fst a) + snd (fst b), snd a + snd b).
+Fixpoint zseq (start : Z) (n : nat) : list Z :=
+  match n with O => [] | S k => start :: zseq (start + 1) k end.
+
 (* ================= Part 3: what the property demands of one Write call ================= *)
 (* observed request: headers + "the body snappy-decodes and unmarshals to the message of this call" *)
 Record oreq := mkOReq { oq : wreq; oq_body_ok : bool }.
@@ -265,8 +275,7 @@ Definition spec_stats_of (t : mtype) (o : outcome) : Z * Z * Z :=
   | V2, OResp r => (stat_val (r_samples r), stat_val (r_hist r), stat_val (r_exem r))
   | _, _ => (0, 0, 0)
   end.
-Definition sum3 (l : list (Z * Z * Z)) : Z * Z * Z :=
-  fold_right (fun x a => (fst (fst x) + fst (fst a), snd (fst x) + snd (fst a), snd x + snd a)) (0, 0, 0) l.
+Definition sum3 (l : list (Z * Z * Z)) : Z * Z * Z := fold_right add3 (0, 0, 0) l.
 Definition eq3 (a b : Z * Z * Z) : bool :=
   (fst (fst a) =? fst (fst b)) && (snd (fst a) =? snd (fst b)) && (snd a =? snd b).
 Definition spec_after (o : outcome) : Z := match o with OResp r => retry_after_ns r | _ => 0 end.
@@ -289,6 +298,11 @@ Fixpoint gaps_ok (gaps : list Z) (os : list outcome) : bool :=
   | g :: gr, o :: orr => (spec_after o <=? g) && gaps_ok gr orr
   | _, _ => true
   end.
+
+(* the observables a run of the model stands for: every body intact, gaps exactly the computed delays *)
+Definition obs_of (m : wres) : wobs :=
+  mkObs (map (fun q => mkOReq q true) (w_reqs m)) (w_err m) (s_samples (w_stats m)) (s_hist (w_stats m)) (s_exem (w_stats m))
+        (w_delays m).
 
 (* the checker: [script] is what the server/context did, [ob] what was observed *)
 Definition spec_write_ok (cfg : wcfg) (ty : str) (k : msgkind) (script : list (outcome * cancel)) (ob : wobs) : bool :=
@@ -324,13 +338,13 @@ Definition spec_write_ok (cfg : wcfg) (ty : str) (k : msgkind) (script : list (o
                 end
            else true) &&
           (* a 2xx never yields a status error; a non-2xx status is reported as such unless the context was
-             cancelled (in the wait: context error; before the next send: the transport's error) *)
+             cancelled (in the wait: context error; before the next send: possibly the transport's error) *)
           match rev seen with
           | OResp r :: _ =>
               if is_2xx (OResp r) then werr_eqb (ob_err ob) WNil || werr_eqb (ob_err ob) WV2Unconfirmed
               else if werr_eqb (ob_err ob) WCanceled then true
               else match nth_error script n with
-                   | Some (_, CBefore) => werr_eqb (ob_err ob) WTransport
+                   | Some (_, CBefore) => werr_eqb (ob_err ob) WTransport || werr_eqb (ob_err ob) (WStatus (r_status r))
                    | _ => werr_eqb (ob_err ob) (WStatus (r_status r))
                    end
           | _ => true
@@ -469,6 +483,10 @@ Fixpoint prun (st : pstate) (sched : list (nat * nat)) : pstate :=
 
 End Pool.
 
+(* call t references buffer id (used in statements) *)
+Definition holds (st : pstate) (t id : nat) : Prop :=
+  t_buf (p_thr st t) = Some id \/ t_cbuf (p_thr st t) = Some id.
+
 (* ================= Part 5: the handler ================= *)
 (* ParseProtoMsg: None = error (answered 415) *)
 Fixpoint parse_params (ps : list str) : option mtype :=
@@ -542,6 +560,20 @@ Definition ct_spec (a : ct_ast) : option mtype :=
     | None => Some V1
     end
   else None.
+
+(* well-formedness of a Content-Type built from the grammar: OWS is whitespace only, tokens are non-empty and
+   contain no whitespace, ";" or "=" (RFC 9110 tchar excludes all of them) *)
+Definition WS (s : str) : Prop := Forall (fun c => is_space c = true) s.
+Definition tokc (c : Z) : Prop := is_space c = false /\ c <> 59 /\ c <> 61.
+Definition TOK (s : str) : Prop := s <> [] /\ Forall tokc s.
+Definition wf_param (p : ct_param) : Prop := WS (p_ows1 p) /\ WS (p_ows2 p) /\ TOK (p_name p) /\ TOK (p_value p).
+Definition wf_ast (a : ct_ast) : Prop := WS (a_lead a) /\ WS (a_trail a) /\ TOK (a_media a) /\ Forall wf_param (a_params a).
+
+(* abbreviations for the decision table *)
+Definition enc_ok (r : hreq) : bool := is_empty (h_cenc r) || str_eqb (h_cenc r) snappy_name.
+Definition eff_ctype (r : hreq) : str := if is_empty (h_ctype r) then app_proto else h_ctype r.
+Definition store_status (sb : store_beh) : Z :=
+  if sb_err sb then (if sb_status sb =? 0 then 500 else sb_status sb) else 204.
 
 Definition opt3_eqb (a b : option (Z * Z * Z)) : bool :=
   match a, b with None, None => true | Some x, Some y => eq3 x y | _, _ => false end.
